@@ -1,6 +1,9 @@
 package c12
 
-import "testing"
+import (
+	"strings"
+	"testing"
+)
 
 // The reference models carry their own examples (selfTest, also run by Init before exploring).
 func TestReferenceSelfTest(t *testing.T) { selfTest() }
@@ -54,5 +57,36 @@ func TestReferenceExamples(t *testing.T) {
 	// all-distinct sequences
 	if n := len(ruleSequences(13, 3)); n != 1+13+13*12+13*12*11 {
 		t.Errorf("sequences: %d", n)
+	}
+}
+
+// TestSpaceSizes prints the size of both tiers (go test -v) and checks the page-level menu.
+func TestSpaceSizes(t *testing.T) {
+	for _, tier := range []string{"quick", "thorough"} {
+		c := &check{}
+		sp := c.Init(tier, 0)
+		t.Logf("%s: units=%d cascade=%v pagebox=%v flow=%v", tier, sp.Units, sp.Bounds["cascade_cases"], sp.Bounds["pagebox_cases"], sp.Bounds["flow_cases"])
+	}
+	for _, n := range pageDecoAll {
+		d, ok := pageDecos[n]
+		if !ok {
+			t.Fatalf("page decoration %q is not defined", n)
+		}
+		if n != "symmetric" && !d.asymmetric() {
+			t.Errorf("page decoration %q must differ between the two sides of an axis", n)
+		}
+	}
+}
+
+func TestPageDecoPrelude(t *testing.T) {
+	got := flowPreludeDeco(30, "@top-center", "", pageDecos["border-bottom"])
+	want := `<style>@page{size:20px 46px;margin:10px 0 0 0;border-bottom:6px solid;@top-center{content:counter(page) "/" counter(pages)}}@page m{size:30px 46px}` +
+		`html,body{margin:0;font-family:ahem;font-size:10px;line-height:1;orphans:1;widows:1}p,div{margin:0}</style>`
+	if got != want {
+		t.Errorf("got  %s\nwant %s", got, want)
+	}
+	// without decoration the text is the historical one (replay files match on it)
+	if p := flowPrelude(30, "@top-center", ""); !strings.Contains(p, "@page{size:20px 40px;margin:10px 0 0 0;@top-center{") {
+		t.Errorf("plain prelude changed: %s", p)
 	}
 }
